@@ -20,8 +20,8 @@ def run(ctx):
     chk.rule('Q4', 'disable: every path to the write passes the duplicate check\'s non-fatal outcome and the "entry found" '
                    'outcome; the "absent" path returns 0 without writing; at most one write', floor=4)
     chk.rule('Q5', 'the new buffer is as large as the old content; the part before the entry is copied whole to its start; '
-                   'what is skipped is the entry\'s line (plus its newline) and nothing more; the rest is copied right '
-                   'behind; every copy is bounded', floor=5)
+                   'what is skipped lies within the entry\'s line (plus its newline) and is chosen by what follows the entry on '
+                   'that line, so that libraries sharing the line stay; the rest is copied right behind; every copy is bounded', floor=5)
     chk.rule('Q6', 'own-entry recognition uses exactly the documented follower set and start-of-line test', floor=2)
     chk.explanation = (
         'Control-flow clauses by branch-polarity reachability; the three-part copy (before / skipped / after) is decided '
@@ -29,8 +29,7 @@ def run(ctx):
         'entry + strlen(entry line) (+1 for its newline) - never later, so no following line, blank or comment can be '
         'swallowed - and lands right behind the first part.')
     chk.assumptions = ['C20 holds', 'snoopy_util_string_copyLineFromContent returns the line starting at its argument']
-    chk.not_decided = ['a library sharing the entry\'s own line is dropped with the line (the documented mechanism removes '
-                       'the whole line; observed, outside these rules)', 'the byte-level result in general']
+    chk.not_decided = ['the byte-level result in general (which separators remain on a shared line, CR-LF files)']
     prog = ctx.program(facts.AS_CONFIGURED, 'cli')
     C18.PROG[0] = prog
     cg = ctx.callgraph(facts.AS_CONFIGURED, 'cli')
@@ -116,15 +115,15 @@ def run(ctx):
 
         def q_second(A, st):
             d, s0 = A.lin(arg(c2, 0), st), A.lin(arg(c2, 1), st)
-            lo = None not in (d, s0) and A.entails(st, s0 - ENT - Lline)
+            lo = None not in (d, s0) and A.entails(st, s0 - ENT)
             hi = lo and A.entails(st, ENT + Lline + Lin.const(1) - s0)
             dst = lo and A.entails(st, d - NEW - (ENT - CUR)) and A.entails(st, NEW + (ENT - CUR) - d)
             return (lo and hi and dst), \
-                'the copy of the remainder starts at %s: it must start at entry + strlen(entry line) or one byte later ' \
-                '(the line\'s newline) and land right behind the first part; otherwise following lines (blank lines, ' \
-                'indentation, other entries) are removed as well' % s0
+                'the copy of the remainder starts at %s: it must start inside the entry\'s line, at the latest one byte ' \
+                'behind it (the line\'s newline), and land right behind the first part; otherwise following lines (blank ' \
+                'lines, indentation, other entries) are removed as well' % s0
         queries[c1.id] = [('before-part-copied-whole', q_first)]
-        queries[c2.id] = [('skips-only-the-entry-line', q_second)]
+        queries[c2.id] = [('skips-nothing-beyond-the-entry-line', q_second)]
     ba = BoundsAnalysis(prog, cg)
     obls = ba.analyse(F, queries=queries)
     seen = {}
@@ -138,6 +137,12 @@ def run(ctx):
         chk.ob('Q5', 'three-part-copy-identified', False, F.where(), F.name,
                'disable does not build the new content from two recognisable copies around the entry\'s line '
                '(found %d copy calls)' % len(copies))
+    if len(copies) == 2 and linev is not None:
+        ok, why = skip_depends_on_rest_of_line(F, copies[1], linev)
+        chk.ob('Q5', 'shared-line-keeps-other-entries', ok, copies[1].where(), F.name,
+               'how much is skipped does not depend on what follows the entry on its line (%s): a library listed behind the '
+               'entry on the same line ("<path> /other.so") is removed together with it' % why,
+               how=why)
     size = None
     for d in def_exprs(F, newbuf['id']):
         s = strip(d)
@@ -145,3 +150,47 @@ def run(ctx):
             size = LinEnv(F).lin(arg(s, 0))
     chk.ob('Q5', 'buffer-size', size is not None and size == Lcur + Lin.const(1), wc.where(), F.name,
            'the new buffer holds %s bytes, expected strlen(old content) + 1' % size, how='malloc(%s)' % size)
+
+
+def skip_depends_on_rest_of_line(F, copy2, linev):
+    """the start of the remainder copy is chosen under a condition that reads a character of the entry's line:
+    one way through that condition assigns a variable the source pointer is computed from, the other does not"""
+    from engine.dataflow import PtrTaint, def_sites
+    src = arg(copy2, 1)
+    # variables the source pointer is computed from (backward def-use closure)
+    slice_ids, work = set(), [n['ref']['id'] for n in src.walk() if n.k == 'DeclRefExpr' and n['ref']['kind'] in ('var', 'parm')]
+    while work:
+        v = work.pop()
+        if v in slice_ids:
+            continue
+        slice_ids.add(v)
+        for e in def_exprs(F, v):
+            for n in e.walk():
+                if n.k == 'DeclRefExpr' and n['ref']['kind'] in ('var', 'parm'):
+                    work.append(n['ref']['id'])
+    pt = PtrTaint(F, lambda n: False, {linev})
+    pos = C.elem_positions(F)
+    target = C.cfg_elem_of(F, copy2)
+    for b in F.blocks.values():
+        c = strip(b.cond) if b.cond is not None else None
+        if c is None or len(b.all_succs) != 2:
+            continue
+        reads_line = any((n.k == 'ArraySubscriptExpr' or (n.k == 'UnaryOperator' and n.get('op') == '*')) and pt.is_derived(n.ch[0])
+                         for n in c.walk())
+        if not reads_line:
+            continue
+        seen_defs = []
+        for si in (0, 1):
+            visited, _ = common.reach_from_edge(F, b, si, stop=lambda e: e.id == target.id)
+            defs = set()
+            for v in slice_ids:
+                for k, n in def_sites(F, v):
+                    if k == 'decl':
+                        continue
+                    el = C.cfg_elem_of(F, n) if n.id not in pos else n
+                    if el is not None and el.id in visited:
+                        defs.add(n.id)
+            seen_defs.append(defs)
+        if seen_defs[0] != seen_defs[1]:
+            return True, 'the skip is decided by %s' % render(c)[:60]
+    return False, 'no condition on a character of the entry line selects between different skip lengths'
